@@ -61,7 +61,7 @@ func (c07) Info(tier string) fw.Info {
 			"`x as T ** y` is read as (x as T) ** y: the right side of `as` is a type, so this is the only grammatical reading although `**` binds tighter than `as`",
 			"range `..`, blocks, if/match/try, statements and items are outside the operator table: only layout invariance is checked; ranges inside generated trees are always fully parenthesised",
 			"whitespace = space, LF, CRLF (tab only when the lexer is observed to accept it and KF-lexer-tab is not open); `..=`, `$name`, `@name` are treated as single tokens",
-			"while " + kfLexerOrAnd + " is open or unlisted the default renderings keep a whitespace character after | || |= & && &=; tight renderings live in the separately tagged workload '" + tagTight + "'",
+			"while " + kfLexerOrAnd + " is open, or the real lexer is observed (at case-generation time) to mis-lex `a||b&c|=d`, the default renderings keep a whitespace character after | || |= & && &=; tight renderings then live only in the separately tagged workload '" + tagTight + "'",
 			"value check: literals only, results inside the region where the property fixes the arithmetic (no division by zero, shift counts 0..63, ** with exponent >= 0 and |result| < 2^53)",
 		},
 		Exhaustive:   true,
@@ -101,25 +101,47 @@ func lexerAcceptsTab() (ok bool) {
 	return err == nil && t.Kind == lexer.Int
 }
 
+// lexerTightOrAndOK observes the real lexer on `a||b&c|=d`: all seven tokens must come out.
+func lexerTightOrAndOK() (ok bool) {
+	defer func() {
+		if recover() != nil {
+			ok = false
+		}
+	}()
+	l := lexer.NewLexer("a||b&c|=d", "x")
+	want := []lexer.TokenKind{lexer.Identifier, lexer.Or, lexer.Identifier, lexer.BitAnd, lexer.Identifier, lexer.BitOrAssign, lexer.Identifier, lexer.EOF}
+	for _, k := range want {
+		t, err := l.NextToken()
+		if err != nil || t.Kind != k {
+			return false
+		}
+	}
+	return true
+}
+
 func (c07) Cases(tier string, seed uint64) []fw.Case {
 	r := fw.NewRng(seed ^ 0xC07C07)
 	thorough := tier == "thorough"
 	tabs := !fw.KFOpen(kfLexerTab) && lexerAcceptsTab()
 	keepLHS := fw.KFOpen(kfParenTarget)
+	// tight renderings of | || |= & && &= join the main workloads only once the lexer is observed
+	// to handle them and the finding is not open; the tagged workload `tight` always has them
+	tightMain := !fw.KFOpen(kfLexerOrAnd) && lexerTightOrAndOK()
 	var cases []fw.Case
 	n := 0
 	add := func(kind string, p payload, tags ...string) {
 		p.G = kind
 		p.Tabs = tabs
+		p.Tight = p.Tight || tightMain
 		cases = append(cases, fw.MkCase(fmt.Sprintf("c07-%s-%05d", kind, n), kind, p, tags...))
 		n++
 	}
 	ops := exprgen.AllBinaryLike
 
 	// (1) all ordered pairs, (2) all ordered triples
-	kp, kt, kpp := 4, 2, 1
+	kp, kt, kpp := 8, 4, 2
 	if thorough {
-		kp, kt, kpp = 8, 5, 3
+		kp, kt, kpp = 32, 16, 8
 	}
 	for _, a := range ops {
 		for _, b := range ops {
@@ -138,17 +160,17 @@ func (c07) Cases(tier string, seed uint64) []fw.Case {
 		}
 	}
 	// (4) random trees
-	nr, perCase, kr := 2000, 20, 3
+	nr, perCase, kr := 20000, 20, 4
 	if thorough {
-		nr, kr = 50000, 5
+		nr, kr = 400000, 6
 	}
 	for i := 0; i < nr/perCase; i++ {
 		add("random", payload{Seed: r.Next(), N: perCase, Depth: 2 + i%6, K: kr, KeepLHS: keepLHS})
 	}
 	// (5) values on the VM
-	nv, perProg := 1500, 15
+	nv, perProg := 9000, 15
 	if thorough {
-		nv = 20000
+		nv = 150000
 	}
 	for i := 0; i < nv/perProg; i++ {
 		add("value", payload{Seed: r.Next(), N: perProg, Depth: 2 + i%5})
@@ -167,9 +189,9 @@ func (c07) Cases(tier string, seed uint64) []fw.Case {
 		add("lists", payload{Name: lf.name, Src: lf.without, Alt: lf.with, Seed: r.Next(), K: 4}, tags...)
 	}
 	// (7) statement forms and the shipped corpus: layout invariance
-	ks := 6
+	ks := 12
 	if thorough {
-		ks = 40
+		ks = 80
 	}
 	for _, sn := range snippets {
 		add("stmt", payload{Name: "snippet/" + sn.name, Src: sn.src, Seed: r.Next(), K: ks})
@@ -212,6 +234,11 @@ func (w *work) layout(toks []string, style int) string {
 	w.a.obs["newlines_inserted"] += int64(o.Newlines)
 	w.a.obs["empty_gaps"] += int64(o.Empty)
 	w.a.cover["style:"+styleNames[style]] = true
+	// self-check of the layout engine against the harness' reference tokenizer: a variant must
+	// consist of exactly the same tokens
+	if back, ok := exprgen.Tokenize(s); !ok || strings.Join(back, "\x00") != strings.Join(toks, "\x00") {
+		w.a.broken = fmt.Sprintf("Tokenize(Layout(toks)) != toks for %q", util.Clip(s, 300))
+	}
 	return s
 }
 
@@ -361,6 +388,19 @@ func (c07) Run(c fw.Case) (res fw.Result) {
 		for _, ctx := range []*context{&contexts[0], w.pickCtx()} {
 			w.a.cover["ctx:"+ctx.name] = true
 			w.flat("pairs", toks, ctx, p.K)
+		}
+		// the same pair with prefix/postfix decorated operands: F(a) op1 F(b) op2 F(c)
+		for i := 0; i < 6; i++ {
+			form := func(name string) []string {
+				return join(fw.Pick(w.r, prefixForms), []string{name}, fw.Pick(w.r, postfixForms))
+			}
+			opnd := func(op, name string) []string {
+				if op == "as" {
+					return w.operandAfter(op, name)
+				}
+				return form(name)
+			}
+			w.flat("pairs", join(form("a"), []string{p.Op1}, opnd(p.Op1, "b"), []string{p.Op2}, opnd(p.Op2, "c")), w.pickCtx(), 2)
 		}
 	case "triples":
 		for _, op3 := range exprgen.AllBinaryLike {
